@@ -126,13 +126,12 @@ def carrier(draw, reg, mb):
         elif how == "noalt":
             ac = 0
         else:
-            n = draw(gen.uint(40, 1840))  # 0 .. 45000 ft, Q=1 code
-            ac = ((n >> 4) << 6) | (1 << 4) | (n & 15) | (((n >> 4) & 0) << 0)
+            n = draw(st.one_of(gen.uint(40, 2040), gen.uint(1480, 2040)))  # 0 .. 50000 ft (half of them above the tropopause), Q=1 code
             ac = gillham_q1(n)
             alt = n * 25 - 1000
             mach = D.getbits(mb, 25, 34) * 2.048 / 512
             cas = isa.mach2cas(mach, alt * isa.FT) / isa.KTS
-            ias = int(round(cas)) + draw(st.sampled_from([0, 0, 1, -1, 10, -10]))
+            ias = int(round(cas)) + draw(st.sampled_from([0, 1, -1, 10, -10, 16, -16, 17, -17]))  # up to the 18 kt reference margin
             mb = D.place(mb, 14, 23, max(0, min(500, ias)))
     return {"reg": reg, "mb": mb, "df": df, "ac": ac, "ctx_head": draw(gen.ubits(27)), "ctx_addr": draw(gen.ubits(24)), "hc": draw(gen.hexcase)}
 
@@ -308,7 +307,7 @@ def s_both(draw):
     u = lambda a, b: draw(gen.uint(a, b))
     P = D.place
     mb = 0
-    alt_ref = draw(st.one_of(gen.ufloat(0, 45000), st.sampled_from([0.0, 35000.0])))
+    alt_ref = draw(st.one_of(gen.ufloat(0, 45000), gen.ufloat(36089, 45000), st.sampled_from([0.0, 35000.0, 45000.0])))
     # bits 1-12: roll (1,2,3-11) == heading (1,2,3-12) ; bit 12 = track status
     if u(0, 5):
         v = u(-284, 284)
@@ -327,7 +326,7 @@ def s_both(draw):
             mode = draw(st.sampled_from(["consistent", "consistent", "free", "inconsistent"]))
             if mach_status and mode != "free":
                 cas = isa.mach2cas(mach_raw * 2.048 / 512, alt_ref * isa.FT) / isa.KTS
-                ias = int(round(cas)) + (u(-5, 5) if mode == "consistent" else draw(st.sampled_from([40, -40, 80])))
+                ias = int(round(cas)) + (draw(st.sampled_from([0, 3, -3, 15, -15, 18, -18])) if mode == "consistent" else draw(st.sampled_from([23, -23, 40, -40, 80])))
             else:
                 ias = u(0, 500)
             mb = P(P(mb, 13, 13, 1), 14, 23, max(0, min(500, ias)))
